@@ -29,6 +29,26 @@ PROTOCOL  one case per line, one result line per case; every case is self-contai
         — and has reached the file when A writes its remaining chunks and closes; then B runs to its end.
         <chunksX> = `_` (none) or <hex> chunks joined by `,`.   model: A then B, one after the other
         -> ok <hex> | err           (ReadFile after both are closed)
+  rdq <qbackend> <old> <split> <sizes> <chunks>     a reader that stays open while the SAME file is rewritten:
+        <qbackend> = mem | encmem | cache (the file lives in the cache's buffer) | rcache (fscache whose file lives
+        in the remote memfs) — the backends whose streams go through memfs handles; diskfs has no handle lock
+        (there the operating system's semantics of an open file apply) and is not part of this family.
+        `d/f` holds <old>; Reader is opened on it and reads its first <split> buffers (<sizes> = `-` | <n>,<n>,…: one
+        Read per size); then ANOTHER goroutine is started that opens a Writer on `d/f`, writes <chunks> and closes;
+        once that goroutine has either finished or is parked on the file's lock, the reader reads its remaining
+        buffers and is closed; the rewriter is waited for; ReadFile.
+        model: `readerRun` with the discipline of the backend (mem, cache: `Disc.memfs`, the handle holds the lock;
+        encmem, rcache: `Disc.priv`, the reader owns a private copy / another file) and the schedule
+        [0, 0 × split, burst]: the rewriter is given enough steps to finish at that point, if it can
+        -> ok <wait|free> rd[ <hex>:<e|c>,…] <hex> | err      wait = the rewriter was held up until the reader's
+                                               Close, free = it finished while the reader was open; the reads; the
+                                               file's content after both have closed
+  scopyq <qbackend> <db> <old> <dstold> <split> <sizes> <chunks>    fshelper.StreamCopy(src, dst, `d/f`) through the
+        chunk-limiting decorator while the SOURCE file is rewritten: source `d/f` = <old> on <qbackend>, destination
+        <db> (any backend) with `d/` and `d/f` = <dstold> (`absent` = none); before the <split>-th Read of the
+        copy's source reader (before its Close if the copy makes fewer reads) the rewriter goroutine is started as
+        in `rdq` and has finished or is parked when the copy goes on.   model: `streamCopyRW`
+        -> <ok|err> <wait|free> <dump of the destination> src=<hex>       (source content after both are done)
   rd <backend> <data> <size>*         a file holding <data>; Reader, one Read per size, Close
         -> rd <hex>:<e|c>,… | rd | err          (as the `reader` line of the fs protocol)
   scopy <sb> <db> <srctree> <dsttree> <path> <sizes> <fault>
@@ -240,6 +260,61 @@ def caseRd (args : List String) : Option String := do
     pure (showChunks ((RHandle.open style data).reads sizes))
   | _ => none
 
+/-- the locking discipline of a backend whose streams are memfs handles -/
+def parseQBackend (s : String) : Option Disc :=
+  match s with
+  | "mem" => some Disc.memfs
+  | "cache" => some Disc.memfs
+  | "encmem" => some Disc.priv
+  | "rcache" => some Disc.priv
+  | _ => none
+
+def parseSizesQ (s : String) : Option (List Nat) :=
+  if s = "-" then some [] else (s.splitOn ",").mapM String.toNat?
+
+def schedName : Phase → String
+  | .idle => "wait"
+  | .closed => "free"
+  | .writing => "mid"
+
+def caseRdq (args : List String) : Option String := do
+  match args with
+  | [be, old, split, sizes, chunks] =>
+    let cfg ← parseQBackend be
+    let old ← Hex.decode old
+    let split ← split.toNat?
+    let sizes ← parseSizesQ sizes
+    let chunks ← parseChunks chunks
+    let ws := 0 :: (List.replicate (min split sizes.length) 0 ++ [chunks.length + 2])
+    let r := readerRun cfg ws sizes (Sys.init old [] chunks)
+    pure s!"ok {schedName r.beforeClose.phase} {showChunks r.out} {Hex.encode r.fin.cell.content}"
+  | _ => none
+
+def caseScopyq (args : List String) : Option String := do
+  match args with
+  | [sb, db, old, dstold, split, sizes, chunks] =>
+    let cfg ← parseQBackend sb
+    let (kind, _, _) ← parseBackend db
+    let old ← Hex.decode old
+    let split ← split.toNat?
+    let sizes ← parseSizesQ sizes
+    let chunks ← parseChunks chunks
+    let p : Path := [dName, fName]
+    let dt0 ← Node.empty.mkdirs [dName]
+    let dt ← (if dstold = "absent" then some dt0 else (Hex.decode dstold).bind (insertFile dt0 p))
+    let dst : Dest := ⟨kind, stateOf dt⟩
+    let s0 := Sys.init old [] chunks
+    -- how many Reads the copy makes (a dry run without the rewriter), to place the rewriter's burst
+    let nreads := (streamCopyRW cfg noFault sizes Calls.zero [] s0 dst p).1.calls .read
+    let burst := chunks.length + 2
+    let ws := List.replicate (1 + min split nreads) 0 ++ [burst]
+    let o := streamCopyRW cfg noFault sizes Calls.zero ws s0 dst p
+    -- is the rewriter held up by the copy's open reader
+    let sched := schedName (wsteps cfg burst (openReader cfg s0)).phase
+    let d := dump o.1.dst.st (candidates [([], dt)] [p])
+    pure s!"{if o.1.ok then "ok" else "err"} {sched} {d} src={Hex.encode o.2.cell.content}"
+  | _ => none
+
 def caseScopy (args : List String) : Option String := do
   match args with
   | [sb, db, st, dt, p, sizes, fault] =>
@@ -294,6 +369,8 @@ def stepLine (line : String) : String :=
   let r := match line.splitOn " " with
     | "wr" :: args => caseWr args
     | "wrq" :: args => caseWrq args
+    | "rdq" :: args => caseRdq args
+    | "scopyq" :: args => caseScopyq args
     | "rd" :: args => caseRd args
     | "scopy" :: args => caseScopy args
     | "tcopy" :: args => caseTcopy args
